@@ -126,6 +126,11 @@ func NewWorld(t *testing.T, sc *Scenario) *World {
 		w.ch = NewChooser(sc.Seed)
 	}
 	w.kd = NewKeyDialect(w.cfg.KeyD, w.cfg.U, w.cfg.Layers)
+	if w.cfg.CmpScale < 0 && !w.cfg.InMemory {
+		// the configured KeyCompare orders the keys the other way round (NewInMemory trees take no
+		// configuration: they always use the default order)
+		w.kd.Reverse()
+	}
 	w.vd = &ValDialect{w.cfg.ValD}
 	nd := w.cfg.Disks
 	if nd < 1 {
